@@ -1,4 +1,118 @@
 """Canary mutants: in-memory source mutations of mici modules that each harness must refute.
-Kept free of mici imports so the worker can install the mutation before mici is imported."""
+Kept free of mici imports so the worker can install the mutation before mici is imported.
+Each entry: module, old, new (exact source substrings), cases (names of harness cases to run), what."""
 
-CANARIES = {}
+CANARIES = {
+    "C10": {
+        "invtri_transpose_flag": {
+            "module": "mici.matrices",
+            "old": "        return InverseTriangularMatrix(\n            self._inverse_array.T,\n            lower=not self.lower,",
+            "new": "        return InverseTriangularMatrix(\n            self._inverse_array.T,\n            lower=self.lower,",
+            "cases": ["leaf/invtri_lower/n2/unary"], "what": "transpose of an inverse-triangular matrix keeps the wrong triangle flag",
+        },
+        "diag_left_multiply_axis": {
+            "module": "mici.matrices",
+            "old": "            return self.diagonal[:, None] * other",
+            "new": "            return self.diagonal[None, :] * other",
+            "cases": ["leaf/diagonal/n2/base"], "what": "DiagonalMatrix @ 2-D array scales columns instead of rows",
+        },
+        "lowrank_logdet_drops_inner": {
+            "module": "mici.matrices",
+            "old": "            self.square_matrix.log_abs_det\n            + self.inner_square_matrix.log_abs_det\n",
+            "new": "            self.square_matrix.log_abs_det\n",
+            "cases": ["leaf/lowrank_square/n2/base"], "what": "matrix determinant lemma without the inner-matrix term",
+        },
+        "scaled_orth_inverse_not_transposed": {
+            "module": "mici.matrices",
+            "old": "        return ScaledOrthogonalMatrix(1 / self._scalar, self._orth_array.T)\n\n    def _compute_hash",
+            "new": "        return ScaledOrthogonalMatrix(1 / self._scalar, self._orth_array)\n\n    def _compute_hash",
+            "cases": ["leaf/scaled_orthogonal/n2/base"], "what": "inverse of a scaled orthogonal matrix forgets the transpose",
+        },
+        "woodbury_downdate_sign": {
+            "module": "mici.matrices",
+            "old": "                self.inner_square_matrix.inv.array\n                + self._sign\n                * (",
+            "new": "                self.inner_square_matrix.inv.array\n                + (",
+            "cases": ["leaf/lowrank_square_neg/n2/base"], "what": "capacitance matrix ignores sign=-1 (the defect fixed in /repo)",
+        },
+    },
+    "C11": {
+        "trifact_grad_spurious_sign": {
+            "module": "mici.matrices",
+            "old": "            -2 * np.outer(inv_vector, inv_factor_vector),",
+            "new": "            -2 * self.sign * np.outer(inv_vector, inv_factor_vector),",
+            "cases": ["grad/trifact_neg_lower/n2"], "what": "the original spurious sign factor (fixed in /repo)",
+        },
+        "diag_grad_quadratic_form": {
+            "module": "mici.matrices",
+            "old": "        return -((self.inv @ vector) ** 2)",
+            "new": "        return -(self.inv @ vector**2)",
+            "cases": ["grad/diagonal/n2"], "what": "gradient of v^T D^-1 v with the square in the wrong place",
+        },
+        "lowrank_grad_logdet_factor": {
+            "module": "mici.matrices",
+            "old": "        return (\n            2\n            * self._sign\n            * (self.inv @ (self.factor_matrix.array @ self.inner_pos_def_matrix))",
+            "new": "        return (\n            1\n            * self._sign\n            * (self.inv @ (self.factor_matrix.array @ self.inner_pos_def_matrix))",
+            "cases": ["grad/lowrank_pd/n2"], "what": "low-rank log-determinant gradient off by a factor 2",
+        },
+    },
+    "C05": {
+        "riemannian_dh2_dpos_half": {
+            "module": "mici.systems",
+            "old": "        return 0.5 * vjp_metric(self.metric(state).grad_quadratic_form_inv(state.mom))",
+            "new": "        return vjp_metric(self.metric(state).grad_quadratic_form_inv(state.mom))",
+            "cases": ["system/diagonal/2/plain"], "what": "Riemannian dh2_dpos loses its factor 1/2",
+        },
+        "gauss_dh_dpos_omits_h2": {
+            "module": "mici.systems",
+            "old": "        return self.dh1_dpos(state) + self.dh2_dpos(state)\n\n    def h2_flow(self, state: ChainState, dt: ScalarLike) -> None:\n        omega",
+            "new": "        return self.dh1_dpos(state)\n\n    def h2_flow(self, state: ChainState, dt: ScalarLike) -> None:\n        omega",
+            "cases": ["system/gauss/2/diag/plain"], "what": "Gaussian-split dh_dpos without the h2 term (the defect fixed in /repo)",
+        },
+        "constrained_h1_missing_gram": {
+            "module": "mici.systems",
+            "old": "        return self.neg_log_dens(state) + self.log_det_sqrt_gram(state)",
+            "new": "        return self.neg_log_dens(state) + 2 * self.log_det_sqrt_gram(state)",
+            "cases": ["system/constr/2/diag/sphere/False/plain"], "what": "Gram log-determinant correction doubled",
+        },
+    },
+    "C07": {
+        "gauss_flow_sign": {
+            "module": "mici.systems",
+            "old": "            cos_omega_dt * eigvec_trans_mom - (sin_omega_dt / omega) * eigvec_trans_pos",
+            "new": "            cos_omega_dt * eigvec_trans_mom + (sin_omega_dt / omega) * eigvec_trans_pos",
+            "cases": ["flow/gauss/2/diag"], "what": "Gaussian-split rotation with the wrong sign",
+        },
+        "h1_flow_sign": {
+            "module": "mici.systems",
+            "old": "        state.mom -= dt * self.dh1_dpos(state)",
+            "new": "        state.mom += dt * self.dh1_dpos(state)",
+            "cases": ["flow/euclid/1/diag"], "what": "h1 flow kicks the momentum the wrong way",
+        },
+        "gauss_dmom_block": {
+            "module": "mici.systems",
+            "old": "                sin_omega_dt * omega,\n            ),",
+            "new": "                sin_omega_dt / omega,\n            ),",
+            "cases": ["flow_dmom/gauss_constr/2/diag"], "what": "dh2_flow_dmom position block uses 1/omega instead of omega",
+        },
+    },
+    "C08": {
+        "correlated_coefficient": {
+            "module": "mici.transitions",
+            "old": "            state.mom *= (1.0 - self.mom_resample_coeff**2) ** 0.5",
+            "new": "            state.mom *= (1.0 - self.mom_resample_coeff) ** 0.5",
+            "cases": ["correlated/euclid/2/diag"], "what": "partial refreshment with sqrt(1-c) instead of sqrt(1-c^2)",
+        },
+        "projection_without_inverse_metric": {
+            "module": "mici.systems",
+            "old": "            self.inv_gram(state) @ (self.jacob_constr(state) @ (self.metric.inv @ mom))",
+            "new": "            self.inv_gram(state) @ (self.jacob_constr(state) @ mom)",
+            "cases": ["momentum/constr/2/diag/linear"], "what": "cotangent projection forgets M^-1",
+        },
+        "riemannian_sample_uses_inverse": {
+            "module": "mici.systems",
+            "old": "        return self.metric(state).sqrt @ rng.normal(size=state.pos.shape)",
+            "new": "        return self.metric(state).inv.sqrt @ rng.normal(size=state.pos.shape)",
+            "cases": ["momentum/diagonal/2"], "what": "Riemannian momenta drawn with the inverse metric as covariance",
+        },
+    },
+}
